@@ -17,6 +17,7 @@ import Ogen.RegexSemantics_proof
 import Ogen.NameGen_proof
 import Ogen.TStore_proof
 import Ogen.UnixTime_proof
+import Ogen.FloatValidateModel
 
 /-! Line-protocol driver over all executable models: `<model> <payload>` per line, one
     canonical output line per input line. Core-only (no Mathlib) so it links natively. -/
@@ -63,6 +64,7 @@ def dispatch (line : String) : String :=
     | "namegen" => NameGen.namegenLine payload
     | "tstore" => TStore.tstoreLine payload
     | "unixt" => UnixT.unixLine payload
+    | "vfloat" => FloatV.floatLine payload
     | "jeq" => JEqDrv.runLine payload
     | "enum" => JEqDrv.enumLine payload
     | _ => "bad-model"
